@@ -61,22 +61,23 @@ Check (C04_send_framed_complete :
   (exists d e, sent' ++ qbytes w' = sent0 ++ qbytes w ++ d /\ frame c m = d ++ e /\
                (r = WOk -> e = [] /\ qbytes w' = []) /\ (fitsb c m = false -> d = [])) /\
   (r = WOk -> fitsb c m = true) /\ (r = WDenied -> fitsb c m = false)).
-Check (C04_close_flushes :
-  forall (bp : N) (c : codec) (script : list wev) (ops : list op) rs r s',
-  run_ops bp c (init_sys script) (ops ++ [OClose]) = (rs ++ [r], s') ->
-  Forall2 good ops rs -> fst r = WOk ->
+Check (C04_close_sends_nothing :
+  forall (script : list wev) (w : wstate) (sent0 : list N),
+  (forall r w' sent' script' sh,
+     poll_close script w sent0 = (r, w', sent', script', sh) ->
+     w' = w /\ sent' = sent0 /\ (r = WOk <-> sh = true)) /\
+  (forall r np w' sent' script' sh,
+     close_all script w sent0 = (r, np, w', sent', script', sh) ->
+     w' = w /\ sent' = sent0 /\ (r = WOk -> Forall clean_ev script -> sh = true))).
+Check (C04_close_after_flush_complete :
+  forall (bp : N) (c : codec) (script : list wev) (ops : list op) rs rf rc s',
+  run_ops bp c (init_sys script) (ops ++ [OFlush; OClose]) = (rs ++ [rf; rc], s') ->
+  Forall2 good ops rs -> fst rf = WOk -> fst rc = WOk ->
   sent s' = wire_of c (accepted c ops) /\ qbytes (ws s') = [] /\ shut s' = true).
-Check (C04_poll_close_spec :
-  forall (script : list wev) (w : wstate) (sent0 : list N) r w' sent' script' sh,
-  poll_close script w sent0 = (r, w', sent', script', sh) ->
-  pbytes w = lenN (qbytes w) ->
-  pbytes w' = lenN (qbytes w') /\ sent' ++ qbytes w' = sent0 ++ qbytes w /\
-  (r = WOk -> qbytes w' = [] /\ frames w' = [] /\ curf w' = None /\ sh = true) /\
-  (sh = true -> r = WOk)).
-Check (C04_close_all_flushes :
-  forall (bp : N) (c : codec) (script : list wev) (ops : list op) rs s1 np w' sent' script' sh,
-  run_ops bp c (init_sys script) ops = (rs, s1) ->
-  Forall2 good ops rs ->
+Check (C04_close_all_after_flush_complete :
+  forall (bp : N) (c : codec) (script : list wev) (ops : list op) rs rf s1 np w' sent' script' sh,
+  run_ops bp c (init_sys script) (ops ++ [OFlush]) = (rs ++ [rf], s1) ->
+  Forall2 good ops rs -> fst rf = WOk ->
   close_all (wscript s1) (ws s1) (sent s1) = (WOk, np, w', sent', script', sh) ->
   Forall clean_ev (wscript s1) ->
   sent' = wire_of c (accepted c ops) /\ qbytes w' = [] /\ sh = true).
